@@ -48,6 +48,9 @@ type FedSpec struct {
 	Priorities []string          `json:"priorities,omitempty"`
 	// Owners[type.field] = services declaring it (bookkeeping for oracles)
 	Owners map[string][]string `json:"owners"`
+	// Parsed, when set, holds already parsed service schemas to hand to gateway.New instead of parsing the SDL again
+	// (several gateways built in one process from the same schema objects)
+	Parsed map[string]*ast.Schema `json:"-"`
 }
 
 func baseName(t string) string { return strings.Trim(t, "[]!") }
